@@ -4,18 +4,18 @@ P=$1; I=$2; TESTS=$3
 WT=/tmp/seed/$P; OUT=$WT/out/$I; W=/tmp/seed/tools/wtpy
 cd $WT && git checkout -q -- . && git status --short | grep -v '^??' 
 [ -f $OUT/patch.diff ] || { echo "no patch"; exit 2; }
-$W $WT $OUT/demo.py > /tmp/cs_unpatched.txt 2>&1; U=$?
+$W $WT $OUT/demo.py > /tmp/cs_unpatched_$P.txt 2>&1; U=$?
 git apply $OUT/patch.diff || { echo "patch does not apply"; exit 2; }
-$W $WT $OUT/demo.py > /tmp/cs_patched.txt 2>&1; Q=$?
-$W $WT -m pytest -q -p no:cacheprovider -x $TESTS > /tmp/cs_tests.txt 2>&1; T=$?
+$W $WT $OUT/demo.py > /tmp/cs_patched_$P.txt 2>&1; Q=$?
+$W $WT -m pytest -q -p no:cacheprovider -x $TESTS > /tmp/cs_tests_$P.txt 2>&1; T=$?
 git checkout -q -- .
-echo "$P-$I demo_unpatched_exit=$U demo_patched_exit=$Q tests_exit=$T ($(tail -1 /tmp/cs_tests.txt))"
+echo "$P-$I demo_unpatched_exit=$U demo_patched_exit=$Q tests_exit=$T ($(tail -1 /tmp/cs_tests_$P.txt))"
 if [ $U -eq 0 ] && [ $Q -ne 0 ] && [ $T -eq 0 ]; then
   D=/verif/seeded/$P-$I; mkdir -p $D; cp $OUT/patch.diff $OUT/demo.py $D/
   python3 - <<PY
 import json
 m=json.load(open("$OUT/meta.json"))
-m["confirmed"]={"worktree":"$WT","demo_unpatched_exit":$U,"demo_patched_exit":$Q,"tests":"$TESTS","tests_result":open("/tmp/cs_tests.txt").read().strip().split("\n")[-1]}
+m["confirmed"]={"worktree":"$WT","demo_unpatched_exit":$U,"demo_patched_exit":$Q,"tests":"$TESTS","tests_result":open("/tmp/cs_tests_$P.txt").read().strip().split("\n")[-1]}
 json.dump(m,open("$D/meta.json","w"),indent=1)
 PY
   echo "kept $D"
